@@ -45,7 +45,7 @@ def run(ctx):
     gcfg = open(vlib.VERIF + "/spec/Handler_gen_c03.cfg").read()
     if T:
         gcfg = gcfg.replace("MaxLen = 3", "MaxLen = 4").replace('Caches = {"empty", "own", "redir"}', 'Caches = {"empty", "own"}')
-    sim = vlib.tlc_behaviours(ctx, "Handler", "Handler_gen_c03_run.cfg", simulate=6000 if T else 700, depth=24,
+    sim = vlib.tlc_behaviours(ctx, "Handler", "Handler_gen_c03_run.cfg", simulate=8000 if T else 700, depth=24,
                               cfg_text=gcfg, timeout=900)
     behs += sim
     cases, infeasible = [], 0
@@ -90,7 +90,7 @@ def run(ctx):
                        "behaviours of Handler.tla with >= 1 plugin step that were replayed on real plugins")
     ctx.cov["exhaustive"] = False
     log("leg B: %d scripted cases gave the generator's reply, %d took another contract-conforming path" % (st["steered"], st["mismatch"]))
-    if not st["rejected"]:
+    if not ctx.violations:
         if st["steered"] < max(1, n_scripted // 4):
             raise vlib.Infra("dead driver: only %d of %d scripted cases produced the generator's reply" % (st["steered"], n_scripted))
         hc.corrupt_check(ctx, PROP, st["recs"])
